@@ -1757,6 +1757,15 @@ func checkLoopAlwaysBound(w *World, r *Report) {
 						isBody = true
 					}
 				}
+			} else if ok {
+				// the body handed to a generic "render these nodes" helper
+				if g := c.Common().StaticCallee(); g != nil && isTwigFn(g) {
+					for i, a := range c.Common().Args {
+						if t, f := originField(a, 0); t == "ForNode" && f == "body" && i < len(g.Params) && rendersParam(g, g.Params[i]) {
+							isBody = true
+						}
+					}
+				}
 			}
 			if !isBody {
 				return
@@ -1917,4 +1926,49 @@ func checkAttributeNamesNotSpecialCased(w *World, r *Report) {
 	}
 	r.ok("R09.14", "(package)", "attribute names reach key lookups un-special-cased", "-", fmt.Sprintf("%d attribute-name values followed through %d values/parameters; %d constant comparisons", nRoots, len(attrVals), nCmp), true)
 	r.floor("attribute-name values of GetAttr nodes", nRoots, 1)
+}
+
+
+// rendersParam: g invokes Render on (an element of) its parameter p.
+func rendersParam(g *ssa.Function, p *ssa.Parameter) bool {
+	found := false
+	var derives func(v ssa.Value, d int) bool
+	derives = func(v ssa.Value, d int) bool {
+		if d > 8 || v == nil {
+			return false
+		}
+		v = unspill(v)
+		if v == ssa.Value(p) {
+			return true
+		}
+		switch x := v.(type) {
+		case *ssa.UnOp:
+			return derives(x.X, d+1)
+		case *ssa.IndexAddr:
+			return derives(x.X, d+1)
+		case *ssa.Index:
+			return derives(x.X, d+1)
+		case *ssa.Slice:
+			return derives(x.X, d+1)
+		case *ssa.Extract:
+			return derives(x.Tuple, d+1)
+		case *ssa.Next:
+			return derives(x.Iter, d+1)
+		case *ssa.Range:
+			return derives(x.X, d+1)
+		case *ssa.Phi:
+			for _, e := range x.Edges {
+				if derives(e, d+1) {
+					return true
+				}
+			}
+		}
+		return false
+	}
+	instrsOf(g, func(in ssa.Instruction) {
+		if c, ok := in.(ssa.CallInstruction); ok && c.Common().IsInvoke() && c.Common().Method.Name() == "Render" && derives(c.Common().Value, 0) {
+			found = true
+		}
+	})
+	return found
 }
